@@ -166,6 +166,114 @@ type c11Ref struct {
 	idx    int
 }
 
+// OID arcs of a content octet string (nil if it is not a well-formed OID content)
+func c11OIDArcs(c []byte) []int {
+	var vals []int
+	v, n := 0, 0
+	for _, b := range c {
+		if n == 0 && b == 0x80 || n > 3 {
+			return nil
+		}
+		v = v<<7 | int(b&0x7f)
+		n++
+		if b&0x80 == 0 {
+			vals = append(vals, v)
+			v, n = 0, 0
+		}
+	}
+	if n != 0 || len(vals) == 0 {
+		return nil
+	}
+	first := vals[0]
+	switch {
+	case first < 40:
+		return append([]int{0, first}, vals[1:]...)
+	case first < 80:
+		return append([]int{1, first - 40}, vals[1:]...)
+	}
+	return append([]int{2, first - 80}, vals[1:]...)
+}
+
+func c11OIDContent(arcs []int) []byte {
+	if len(arcs) < 2 || arcs[0] < 0 || arcs[0] > 2 || arcs[1] < 0 || (arcs[0] < 2 && arcs[1] >= 40) {
+		return nil
+	}
+	enc := func(v int) []byte {
+		o := []byte{byte(v & 0x7f)}
+		for v >>= 7; v > 0; v >>= 7 {
+			o = append([]byte{byte(v&0x7f) | 0x80}, o...)
+		}
+		return o
+	}
+	out := enc(arcs[0]*40 + arcs[1])
+	for _, a := range arcs[2:] {
+		if a < 0 {
+			return nil
+		}
+		out = append(out, enc(a)...)
+	}
+	return out
+}
+
+// identifiers that exactly one of the two parsers interprets on purpose (the fork: SubjectInfoAccess, embedded SCT list, RPKI address
+// and AS blocks; crypto/x509 of go1.24: policy mappings, policy constraints, inhibitAnyPolicy): a neighbour that happens to BE one of
+// them is outside what the differential can judge and is not generated
+var c11OneSided = map[string]bool{fmt.Sprint([]int{1, 3, 6, 1, 5, 5, 7, 1, 11}): true, fmt.Sprint([]int{1, 3, 6, 1, 4, 1, 11129, 2, 4, 2}): true,
+	fmt.Sprint([]int{1, 3, 6, 1, 5, 5, 7, 1, 7}): true, fmt.Sprint([]int{1, 3, 6, 1, 5, 5, 7, 1, 8}): true,
+	fmt.Sprint([]int{2, 5, 29, 33}): true, fmt.Sprint([]int{2, 5, 29, 36}): true, fmt.Sprint([]int{2, 5, 29, 54}): true}
+
+// c11OIDNearMisses: the certificate with ONE object identifier turned into a neighbour — one arc (the first included) changed
+// by one, an arc appended, or the last arc dropped; everything else (values, criticality, order, signature octets) untouched and
+// the enclosing lengths recomputed. Returns every such variant of up to `max` randomly chosen OIDs of the certificate.
+func c11OIDNearMisses(r *verifkit.Rand, der []byte, max int) (out [][]byte, what []string) {
+	roots, ok := c11ParseSeq(der, 12)
+	if !ok || len(roots) == 0 {
+		return nil, nil
+	}
+	top := &c11Node{kids: roots}
+	var refs, oids []c11Ref
+	c11Collect(top.kids, top, &refs)
+	for _, x := range refs {
+		if len(x.n.id) == 1 && x.n.id[0] == 0x06 && x.n.kids == nil && c11OIDArcs(x.n.content) != nil {
+			oids = append(oids, x)
+		}
+	}
+	for k := 0; k < max && len(oids) > 0; k++ {
+		i := r.Intn(len(oids))
+		pick := oids[i]
+		oids = append(oids[:i], oids[i+1:]...)
+		orig := pick.n.content
+		arcs := c11OIDArcs(orig)
+		var variants [][]int
+		for pos := range arcs {
+			for _, d := range []int{-1, 1} {
+				v := append([]int(nil), arcs...)
+				v[pos] += d
+				variants = append(variants, v)
+			}
+		}
+		variants = append(variants, append(append([]int(nil), arcs...), 1), append(append([]int(nil), arcs...), 0))
+		if len(arcs) > 2 {
+			variants = append(variants, append([]int(nil), arcs[:len(arcs)-1]...))
+		}
+		for _, v := range variants {
+			c := c11OIDContent(v)
+			if c == nil || c11OneSided[fmt.Sprint(v)] {
+				continue
+			}
+			pick.n.content = c
+			var b []byte
+			for _, n := range top.kids {
+				b = append(b, n.encode()...)
+			}
+			out = append(out, b)
+			what = append(what, fmt.Sprint(arcs)+"->"+fmt.Sprint(v))
+		}
+		pick.n.content = orig
+	}
+	return out, what
+}
+
 // c11Mutate applies one or two structure-preserving mutations (lengths of all enclosing elements are recomputed).
 func c11Mutate(r *verifkit.Rand, der []byte) ([]byte, string) {
 	roots, ok := c11ParseSeq(der, 12)
@@ -449,6 +557,15 @@ func c11Name(r *verifkit.Rand) stdpkix.Name {
 	if r.Intn(4) == 0 {
 		n.ExtraNames = []stdpkix.AttributeTypeAndValue{{Type: []int{1, 2, 840, 113549, 1, 9, 1}, Value: "mail@example.com"}, {Type: []int{2, 5, 4, 12}, Value: "Dr"}}[:1+r.Intn(2)]
 	}
+	if r.Intn(3) == 0 {
+		// attribute types under, beside and above the standard id-at attributes (2.5.4.N): none of them is a standard attribute,
+		// crypto/x509 leaves all of them in Names only
+		beside := [][]int{{2, 5, 4, 3, 1}, {2, 5, 4, 10, 7}, {2, 5, 4, 5, 2}, {2, 5, 4, 6, 0}, {2, 5, 4, 11, 1, 1}, {2, 5, 4}, {2, 5, 5, 3}, {2, 4, 4, 3}, {1, 5, 4, 3}, {0, 5, 4, 10},
+			{2, 5, 4, 17, 1}, {2, 5, 4, 65}, {2, 5, 4, 4}, {2, 5, 3, 3}, {2, 5, 4, 7, 3}, {2, 5, 4, 8, 9}, {2, 5, 4, 9, 1}}
+		for i, k := 0, 1+r.Intn(3); i < k; i++ {
+			n.ExtraNames = append(n.ExtraNames, stdpkix.AttributeTypeAndValue{Type: beside[r.Intn(len(beside))], Value: "near-" + c11Words[r.Intn(len(c11Words))]})
+		}
+	}
 	return n
 }
 
@@ -490,6 +607,28 @@ func c11Template(r *verifkit.Rand) *stdx509.Certificate {
 	}
 	if r.Intn(4) == 0 {
 		t.UnknownExtKeyUsage = []asn1Std{{1, 3, 6, 1, 4, 1, 11129, 2, 4, 4}, {2, 5, 29, 37, 99}}[:1+r.Intn(2)]
+	}
+	if r.Intn(4) == 0 {
+		// neighbours of the known usages: one arc (the first included) off, one arc more, one arc less
+		known := [][]int{{1, 3, 6, 1, 5, 5, 7, 3, 1 + r.Intn(9)}, {2, 5, 29, 37, 0}, {1, 3, 6, 1, 4, 1, 311, 10, 3, 3}, {2, 16, 840, 1, 113730, 4, 1}, {1, 3, 6, 1, 4, 1, 311, 2, 1, 22},
+			{1, 3, 6, 1, 4, 1, 311, 61, 1, 1}, {1, 3, 6, 1, 4, 1, 11129, 2, 4, 4}}
+		for i, k := 0, 1+r.Intn(2); i < k; i++ {
+			o := append([]int(nil), known[r.Intn(len(known))]...)
+			switch r.Intn(4) {
+			case 0:
+				o[0] = (o[0] + 1) % 3
+				if o[0] < 2 && o[1] >= 40 {
+					o[1] = 39
+				}
+			case 1:
+				o[2+r.Intn(len(o)-2)]++
+			case 2:
+				o = append(o, r.Intn(2))
+			case 3:
+				o = o[:len(o)-1]
+			}
+			t.UnknownExtKeyUsage = append(t.UnknownExtKeyUsage, o)
+		}
 	}
 	if r.Bool() {
 		t.BasicConstraintsValid = true
@@ -941,6 +1080,30 @@ func TestVerifC11(t *testing.T) {
 			out.Fail("conformance field "+diff+" "+hx, "fork and crypto/x509 disagree on "+diff)
 		} else {
 			out.Count("mode:conformance-equal")
+		}
+		// the same certificate with one object identifier replaced by a neighbour (extension ids, key usages, attribute types,
+		// algorithm and curve identifiers, policy ids, access methods): wherever crypto/x509 still parses it, the fork must
+		// parse it too and report the same fields — an identifier is the one it is only if EVERY arc agrees
+		if i%3 == 0 || verifkit.Thorough() {
+			ms, whats := c11OIDNearMisses(r, der, 2)
+			for j, m := range ms {
+				ms2, serr2 := stdx509.ParseCertificate(m)
+				if serr2 != nil {
+					out.Count("mode:oid-near-miss-stdlib-rejects")
+					continue
+				}
+				check("ParseCertificate", m, c11Call(func() (interface{}, error) { return ParseCertificate(m) }))
+				mf, ferr2 := ParseCertificate(m)
+				if mf == nil || (ferr2 != nil && IsFatal(ferr2)) {
+					out.Fail("oid-near-miss error "+whats[j]+" "+verifkit.Hex(m), fmt.Sprintf("crypto/x509 parses the certificate with the identifier %s, the fork gives %v", whats[j], ferr2))
+					continue
+				}
+				if diff := c11Compare(mf, ms2); diff != "" {
+					out.Fail("oid-near-miss field "+diff+" "+whats[j]+" "+verifkit.Hex(m), "identifier "+whats[j]+": fork and crypto/x509 disagree on "+diff)
+				} else {
+					out.Count("mode:oid-near-miss-equal")
+				}
+			}
 		}
 	}
 
